@@ -52,7 +52,8 @@ theorem neg_attaches (T : PrecTables) {s s1 : PSt} {o : Operator} {x : PExpr} {s
 
 /-- **climb_correct**: for *any* well-formed precedence table `T` and any well-formed expression `e` — binary
 operators, IS / IS NOT, AND / OR, prefix NOT and unary minus (also nested and after any operator), subscripts, casts,
-qualified names, IN / NOT IN lists (one element included), calls, user-written parentheses, nested to any depth —
+qualified names, IN / NOT IN lists (one element included), calls (also `count(DISTINCT …)`, `count(*)`, `array[…]`,
+`EXTRACT(… FROM …)`), tuples, CASE, user-written parentheses, nested to any depth —
 running `parse_unary_operator` and then the operand loop at any level `m` on the printing of `e` for context `m`
 (parentheses only where the levels require them) followed by a state that stops level `m` returns exactly the tree of
 `e` and stops in front of that state, for every sufficiently large fuel. -/
@@ -192,6 +193,19 @@ example : RExpr.minimal (.bin .and (.not (.bin (.sym (.single '=')) (.col ['a'] 
       (.inList false (.neg (.cast (.index (.col ['c'] []) (.lit (.int 1))) .int)) (.lit (.int 1)) [])) =
     [.kw .not, .ident ['a'], .op (.single '='), .ident ['b'], .kw .and, .op (.single '-'), .ident ['c'], .lsq, .int 1,
      .rsq, .dcolon, .ident "int".toList, .kw .in, .lp, .int 1, .rp] := by decide
+
+/-- … and with the atoms of the operator grammar: `CASE WHEN a THEN count(DISTINCT b) ELSE array[1][1] END * EXTRACT(hour FROM c)` -/
+example : RExpr.minimal (.bin (.sym (.single '*'))
+      (.case (.col ['a'] []) (.countDistinct "count".toList (.col ['b'] []) []) []
+        (.index (.array "array".toList [.lit (.int 1)]) (.lit (.int 1))))
+      (.extract "hour".toList (.col ['c'] []))) =
+    [.kw .case, .kw .when, .ident ['a'], .kw .then, .ident "count".toList, .lp, .kw .distinct, .ident ['b'], .rp, .kw .else,
+     .ident "array".toList, .lsq, .int 1, .rsq, .lsq, .int 1, .rsq, .kw .end, .op (.single '*'), .kw .extract, .lp,
+     .ident "hour".toList, .kw .from, .ident ['c'], .rp] := by decide
+
+example : RExpr.WF specTables (.case (.col ['a'] []) (.countDistinct "count".toList (.col ['b'] []) []) []
+    (.index (.array "array".toList [.lit (.int 1)]) (.lit (.int 1)))) := by
+  simp [RExpr.WF, RExpr.WFs, RExpr.WFClauses]; decide
 
 example : RExpr.full (.bin .or (.col ['a'] []) (.bin .and (.col ['b'] []) (.col ['c'] []))) =
     [.lp, .ident ['a'], .kw .or, .lp, .ident ['b'], .kw .and, .ident ['c'], .rp, .rp] := by decide
